@@ -134,6 +134,7 @@ def heur_failures(r):
     stack = rng.randint(-50, 50, size=(height, ND, 2)).astype(np.int32)
     ne = rng.randint(0, 2, size=(height, NP)).astype(bool)
     du = rng.randint(0, 8, size=(height, 2)).astype(np.uint16)
+    du[:, 0] = 7 + rng.randint(0, 50, size=height)  # stale records point nowhere
     st = np.array([top], dtype=np.uint8)
     stack[top, d] = (a, b)
     params = np.array(r["costs"], dtype=np.int64) if "costs" in r else np.array([[]], dtype=np.int64)
@@ -183,6 +184,9 @@ def heur_failures(r):
     cur = newtop
     while cur > top:
         trig = np.zeros(NP, dtype=bool)
+        if int(du[cur - 1, 0]) >= ND:
+            fails.add("alternative-record-unusable-on-backtrack")
+            break
         ok = CP.backtrack(stats, ne, du, st, trig, triggers)
         cur -= 1
         want = [bool(saved_ne[cur, p]) and (int(triggers[d, p]) & recs[cur]) != 0 for p in range(NP)]
@@ -300,11 +304,14 @@ class Dying(BacktrackSolver):
                 q.put(msg); s.n += 1
         return Q()
     def solve_and_queue(self, idx, q):
+        time.sleep(self.delay)
         super().solve_and_queue(idx, self._q(q))
     def optimize_and_queue(self, v, f, idx, q):
+        time.sleep(self.delay)
         super().optimize_and_queue(v, f, idx, self._q(q))
 
-mode, dead_at, nsol = %(mode)r, %(dead_at)r, %(nsol)r
+import time
+mode, dead_at, nsol, delays = %(mode)r, %(dead_at)r, %(nsol)r, %(delays)r
 solvers = []
 for w, k in enumerate(nsol):
     # worker w enumerates k solutions: one variable with k values (k = 0: an inconsistent constraint)
@@ -314,6 +321,7 @@ for w, k in enumerate(nsol):
         pb.add_propagator(([0], ALG_AFFINE_LEQ, [1, -1000]))
     s = Dying(pb, log_level="CRITICAL")
     s.die_at = dead_at[w] if dead_at[w] <= k else None
+    s.delay = delays[w]
     solvers.append(s)
 mp = MultiprocessingSolver(solvers, log_level="CRITICAL")
 try:
@@ -331,7 +339,12 @@ except Exception as e:
 def replay_reducer(r):
     import subprocess
 
-    code = REDUCER_SCRIPT % dict(repo=os.environ.get("NUSYM_REPO", "/repo"), mode=r["mode"], dead_at=r["dead_at"], nsol=[max(0, n) for n in r["nsol"]])
+    nw = len(r["nsol"])
+    healthy_kind = r["kind"] in ("raises-on-healthy-run", "returned-before-all-workers-finished", "none-although-solutions-exist", "not-optimal", "solutions-not-the-multiset-union")
+    # a healthy run in which the first worker finishes at once and the others stay silent for several queue time-outs
+    delays = [0.0] + [3.5] * (nw - 1) if healthy_kind else [0.0] * nw
+    dead_at = [10**6] * nw if healthy_kind else r["dead_at"]
+    code = REDUCER_SCRIPT % dict(repo=os.environ.get("NUSYM_REPO", "/repo"), mode=r["mode"], dead_at=dead_at, nsol=[max(0, n) for n in r["nsol"]], delays=delays)
     import signal
 
     proc = subprocess.Popen([sys.executable, "-c", code], stdout=subprocess.PIPE, stderr=subprocess.STDOUT, text=True, start_new_session=True)
@@ -342,6 +355,16 @@ def replay_reducer(r):
         proc.wait()
         return r["kind"] == "blocks-forever", "the real MultiprocessingSolver call did not return within the watchdog"
     out = out.strip()[-400:]
+    if healthy_kind:
+        nsol = [max(0, n) for n in r["nsol"]]
+        if r["kind"] == "raises-on-healthy-run":
+            return "RAISED" in out, f"healthy run, workers 1.. start after 3.5 s: {out}"
+        if r["mode"] == "solve":
+            want = sorted([[10 * w + j] for w, k in enumerate(nsol) for j in range(k)])
+            return ("RESULT " + str(want)) not in out, f"expected {want}: {out}"
+        vals = [10 * w + j for w, k in enumerate(nsol) for j in range(k)]
+        want = "None" if not vals else str([min(vals) if r["mode"] == "minimize" else max(vals)])
+        return ("RESULT " + want) not in out.replace("[ ", "["), f"expected {want}: {out}"
     return False, f"the call terminated: {out}"
 
 
@@ -794,7 +817,42 @@ def replay_shave(r):
 
     kind = r["kind"]
     if r.get("site") == "shave_bound":
-        return False, "shave_bound lemma with a stubbed propagation pass: no public-API scenario derived automatically"
+        # the real shave_bound, interpreted, with the propagation pass replaced by a pass that changes nothing and
+        # answers the recorded status (such a pass respects the contract the lemma assumes)
+        if not os.environ.get("NUMBA_DISABLE_JIT"):
+            return False, "the shave_bound lemma is replayed in interpreted mode (the inner pass is replaced)"
+        import nucs.solvers.shaving_consistency_algorithm as SH
+
+        height, top, bound, a, b = r.get("height", 5), r["top"], r["bound"], r["a"], r["b"]
+        rng = np.random.RandomState(7)
+        stack = rng.randint(-50, 50, size=(height, 2, 2)).astype(np.int32)
+        ne = rng.randint(0, 2, size=(height, 2)).astype(bool)
+        ne[top] = True
+        du = np.zeros((height, 2), dtype=np.uint16)
+        st = np.array([top], dtype=np.uint8)
+        stack[top, 0] = (a, b)
+        before, ne_before = stack.copy(), ne.copy()
+        trig = np.zeros(2, dtype=bool)
+        real = SH.bound_consistency_algorithm
+        SH.bound_consistency_algorithm = lambda *args: r["bc_status"]
+        try:
+            shaved = bool(SH.shave_bound(bound, 0, np.zeros(13, dtype=np.int64), None, None, None, None, None, None, None, None, np.array(r["watchers"], dtype=np.uint8), stack, ne, du, st, trig, None, None))
+        finally:
+            SH.bound_consistency_algorithm = real
+        fails = set()
+        if int(st[0]) != top:
+            fails.add("stack-height-changed")
+        if shaved != (r["bc_status"] == 0):
+            fails.add("refutation-verdict-differs-from-propagation-status")
+        want = [a + 1, b] if (shaved and bound == 0) else ([a, b - 1] if shaved else [a, b])
+        if stack[top, 0].tolist() != want or (stack[top, 1] != before[top, 1]).any() or (ne[top] != ne_before[top]).any() or (stack[:top] != before[:top]).any():
+            fails.add("level-below-not-as-specified" if shaved else "undo-does-not-restore-the-level")
+        if shaved:
+            need = (1 if bound == 0 else 2) | (4 if want[0] == want[1] else 0)
+            for p in range(2):
+                if (r["watchers"][0][p] & need) and not trig[p]:
+                    fails.add("shaved-bound-not-announced-to-its-watchers")
+        return kind in fails, f"failures={sorted(fails)} level={stack[top].tolist()} queue={trig.tolist()}"
     addrs = BS.get_function_addresses()[0]
 
     def mk():
